@@ -415,6 +415,38 @@ func (w *world) calicoNodeK8sName(name string) string {
 	return out
 }
 
+// calicoNodeInStore reports whether the Calico Node resource exists in the datastore and, if so,
+// the Kubernetes node name of its k8s orchRef ("" for a node that Kubernetes does not orchestrate).
+func (w *world) calicoNodeInStore(name string) (exists bool, k8sName string) {
+	w.st.View(func(v casstore.View) {
+		kvp := v.Get(model.ResourceKey{Kind: internalapi.KindNode, Name: name})
+		if kvp == nil {
+			return
+		}
+		exists = true
+		if n, ok := kvp.Value.(*internalapi.Node); ok {
+			for _, o := range n.Spec.OrchRefs {
+				if o.Orchestrator == "k8s" {
+					k8sName = o.NodeName
+				}
+			}
+		}
+	})
+	return
+}
+
+// createBareNode creates a Calico Node resource that Kubernetes does not orchestrate (bare-metal /
+// OpenStack style host running calico-node): no orchRefs at all, or one of another orchestrator.
+func (w *world) createBareNode(name string, openstack bool) error {
+	n := internalapi.NewNode()
+	n.ObjectMeta = metav1.ObjectMeta{Name: name, UID: types.UID("cnode-" + name)}
+	if openstack {
+		n.Spec.OrchRefs = []internalapi.OrchRef{{NodeName: name, Orchestrator: "openstack"}}
+	}
+	_, err := w.adminBC.Create(context.Background(), &model.KVPair{Key: model.ResourceKey{Kind: internalapi.KindNode, Name: name}, Value: n})
+	return err
+}
+
 func (w *world) createCalicoNode(name string) error {
 	n := internalapi.NewNode()
 	n.ObjectMeta = metav1.ObjectMeta{Name: name, UID: types.UID("cnode-" + name)}
